@@ -270,6 +270,9 @@ def decide(pid, tier, seed, P, vres, kres, kmeta, vac, t0, evdir):
                     known.append((kf, f['obligation']))
                     continue
                 path, found = verus_counterexample(r, f, evdir, pid)
+                if r.get('skipped_hints') and not found:
+                    undecided.append('%s: %s failed after proof-hint anchors were lost (%s) and the replay oracle found no failing input' % (r['unit'], f['obligation'], '; '.join(r['skipped_hints'])[:300]))
+                    continue
                 u_ = r.get('_unit_obj')
                 paired = (getattr(u_, 'paired_kani', {}) or {}).get((f.get('function') or '').split('/')[-1])
                 violations.append({'obligation': f['obligation'], 'replay': path, 'found_input': found,
